@@ -53,7 +53,8 @@ Judge(i) ==
              \* a decode that consumed the wrong number of bytes still reported a checksum for the frame: judged as such
              \cup (IF ev.hard = 0 /\ "ok" \in DOMAIN ev.out /\ ev.out.ok = 4 /\ Expect(ev.bytes).ok = 1 /\ ev.out.crc # Expect(ev.bytes).crc
                    THEN {"crc"} ELSE {})
-  IN /\ (IF d = {} THEN TRUE ELSE PrintT(<<"VERDICT", i, "reader|" \o ev.tag \o "|" \o Class(ev.bytes), {<<"C19", f>> : f \in d}>>))
+  IN /\ (IF d = {} THEN TRUE ELSE PrintT(<<"VERDICT", i, "reader|" \o ev.tag \o "|" \o Class(ev.bytes),
+                                           {<<"C19", f>> : f \in d} \cup (IF "panic" \in d THEN {<<"C01", "panic">>} ELSE {})>>))
      /\ (IF own = {} THEN TRUE ELSE PrintT(<<"VERDICT", i, Class(ev.bytes), {<<Owner(f), f>> : f \in own}>>))
      /\ (IF Drift(ev) THEN PrintT(<<"INFO", "MODEL-DRIFT", i, ev.tag>>) ELSE TRUE)
 
